@@ -82,6 +82,7 @@ var decodeCandidates = []string{
 	`2147483647`, `2147483648`, `-2147483648`, `-2147483649`, `4294967295`, `4294967296`, `4294967295.5`, `1e3`, `1.0`, `1e-1`, `1e20`, `-0.5`, `100`, `12`,
 	`"0"`, `"1"`, `"-1"`, `"+1"`, `"007"`, `"9223372036854775807"`, `"9223372036854775808"`, `"-9223372036854775808"`, `"-9223372036854775809"`,
 	`"18446744073709551615"`, `"18446744073709551616"`, `"1.5"`, `"abc"`, `""`, `" 1"`, `"1 "`, `"1_000"`, `"0x10"`, `"1e3"`, `"3.14"`, `"NaN"`, `"Inf"`, `"-7"`, `"42"`,
+	`"5."`, `".5"`, `"-.5"`, `"+7."`, `"."`, `"1.2.3"`, `"-0."`,
 	`"AQI="`, `"AQI"`, `"A==="`, `"!!!!"`, `"QUJD"`, `"QUJD\n"`, `"QR=="`, `"QQ=="`,
 	`true`, `false`, `null`, `[null]`, `[]`, `[null,null]`, `{}`, `[1]`, `["a"]`, `[true]`, `{"a":1}`,
 	`"RED"`, `"GREEN"`, `"BLUE"`, `"PURPLE"`, `"v-main:RED"`, `"bogus:RED"`, `"NOPE"`, `"GREEN "`, `"red"`, `"dark-grey"`, `"one"`, `"minus"`,
@@ -96,7 +97,7 @@ func c18Relevant(k yang.TypeKind, c string) bool {
 	isNum := len(c) > 0 && (c[0] == '-' || (c[0] >= '0' && c[0] <= '9'))
 	isStr := strings.HasPrefix(c, `"`)
 	inner := strings.Trim(c, `"`)
-	numStr := isStr && len(inner) > 0 && strings.ContainsAny(inner[:1], "+-0123456789 ")
+	numStr := isStr && len(inner) > 0 && strings.ContainsAny(inner[:1], "+-.0123456789 ")
 	switch k {
 	case yang.Yint8, yang.Yint16, yang.Yint32, yang.Yuint8, yang.Yuint16, yang.Yuint32:
 		return isNum || c == `"1"` || c == "true" || c == "null" || c == "[1]"
